@@ -605,6 +605,13 @@ struct Cb {
 
 impl Callbacks for Cb {
     fn after_analysis<'tcx>(&mut self, _c: &rustc_interface::interface::Compiler, tcx: TyCtxt<'tcx>) -> Compilation {
+        rustc_middle::ty::print::with_resolve_crate_name!(rustc_middle::ty::print::with_no_trimmed_paths!(rustc_middle::ty::print::with_no_visible_paths!(self.dump(tcx))));
+        Compilation::Continue
+    }
+}
+
+impl Cb {
+    fn dump<'tcx>(&mut self, tcx: TyCtxt<'tcx>) {
         let cx = Cx { tcx };
         let mut out = String::with_capacity(64 << 20);
         let mut n = 0usize;
@@ -666,7 +673,6 @@ impl Callbacks for Cb {
         drop(f);
         std::fs::rename(&tmp, &p).expect("rename facts");
         let _ = std::fs::write(format!("{}/{}.{}.mir.count", self.outdir, self.krate, self.ctype), format!("{}\n", n));
-        Compilation::Continue
     }
 }
 
